@@ -268,7 +268,7 @@ Theorem text_ctx_kinds fixed parsed_ok content l c :
   text_ctx_with fixed parsed_ok content l = Some c ->
   c = CUse \/ (fixed && parsed_ok = false /\ exists fn line isf ps sc, c = CSig fn line isf ps sc /\ line <= l).
 Proof.
-  unfold text_ctx_with. intros H.
+  unfold text_ctx_with, text_ctx_gen. intros H.
   destruct ((l =? 0) || (len (text_lines content) <? l)) eqn:E0; [discriminate|].
   destruct (usefixtures_scan fixed _ [] 11) as [res|] eqn:Eu.
   - left. subst res.
@@ -284,11 +284,11 @@ Proof.
         match type of Hs with context [if ?b then _ else _] => destruct b end; (now injection Hs as <-) || discriminate. }
     eapply G. exact Eu.
   - right. destruct (fixed && parsed_ok) eqn:Ef; [discriminate|]. split; [reflexivity|].
-    destruct (find_def_up _ (l - 1) 51) as [[di dl]|] eqn:Ed; [|discriminate].
+    destruct (find_def_up _ _ (l - 1) 51) as [[di dl]|] eqn:Ed; [|discriminate].
     assert (Hdi : di <= l - 1).
     { revert Ed. generalize (rev (firstn (N.to_nat l) (text_lines content))) as up. generalize (l - 1) as i. generalize 51%nat as n.
       induction n as [|n IH]; intros i up Hs; [destruct up; discriminate|]. destruct up as [|x up]; [discriminate|]. cbn [find_def_up] in Hs.
-      destruct (tprefix s_def (trim x) || tprefix s_async_def (trim x)); [injection Hs as <- _; lia|].
+      destruct (after_def_keyword (trim x)); [injection Hs as <- _; lia|].
       apply IH in Hs. lia. }
     destruct (take_ident _) as [|c0 fname]; [discriminate|].
     match type of H with context [if ?b then None else _] => destruct b; [discriminate|] end.
@@ -354,13 +354,14 @@ Qed.
     any indentation, anything above that does not mention usefixtures( — the fallback answers
     with the signature context of exactly that function: its name, the line, whether a
     fixture decorator stands above, the parameters typed so far and the decorator's scope. *)
-Theorem typed_signature_context (content : text) (above : list text) (indent name ptext line : text) :
-  line = indent ++ s_def ++ name ++ 40 :: ptext ->
+Theorem typed_signature_context (content : text) (above : list text) (indent gap name ptext line : text) :
+  line = indent ++ s_kw_def ++ gap ++ name ++ 40 :: ptext ->
   text_lines content = above ++ [line] ->
   (forall ln, In ln (above ++ [line]) -> Text.find s_usefixtures ln = None) ->
   forallb is_ws indent = true ->
+  gap <> [] -> forallb is_ws gap = true ->
   name <> [] -> forallb ident_char name = true -> tprefix s_test name = true ->
-  no_parens indent = true -> no_parens ptext = true ->
+  no_parens indent = true -> no_parens gap = true -> no_parens ptext = true ->
   text_ctx_with true false content (len above + 1)
   = Some (CSig (utf8_encode name) (len above + 1)
                (has_fixture_decorator_above (rev above))
@@ -368,7 +369,7 @@ Theorem typed_signature_context (content : text) (above : list text) (indent nam
                (if has_fixture_decorator_above (rev above)
                 then Some (match scope_from_text (rev above) with Some s => s | None => 0 end) else None)).
 Proof.
-  intros Hline Hls Hu Hind Hne Hid Htest Hnpi Hnpp. unfold text_ctx_with. rewrite Hls.
+  intros Hline Hls Hu Hind Hgne Hgap Hne Hid Htest Hnpi Hnpg Hnpp. unfold text_ctx_with, text_ctx_gen. rewrite Hls.
   match goal with |- (if ?c then _ else _) = _ => destruct c eqn:E0 end.
   { exfalso. apply orb_prop in E0 as [E0|E0]; [apply N.eqb_eq in E0; lia|].
     apply N.ltb_lt in E0. unfold len in E0. rewrite app_length in E0. cbn [length] in E0. lia. }
@@ -378,18 +379,29 @@ Proof.
   rewrite firstn_all, rev_app_distr. cbn [rev app].
   rewrite usefixtures_scan_none by (intros ln Hl; apply Hu; apply in_app_iff; destruct Hl as [<-|Hl]; [right; now left|left; now apply in_rev]).
   cbn [andb].
+  (* the name starts with the t of test_ *)
+  destruct name as [|n0 name']; [contradiction|].
+  assert (Hn0 : n0 = 116).
+  { cbn in Htest. apply andb_prop in Htest as [Ht _]. apply N.eqb_eq in Ht. now symmetry. }
+  set (name := n0 :: name') in *.
   (* the def line is the cursor line *)
-  assert (Htrim : trim line = s_def ++ name ++ 40 :: trim_end ptext).
-  { unfold trim. rewrite Hline. change (s_def ++ name ++ 40 :: ptext) with (100 :: ([101; 102; 32] ++ name ++ 40 :: ptext)).
+  assert (Htrim : trim line = s_kw_def ++ gap ++ name ++ 40 :: trim_end ptext).
+  { unfold trim. rewrite Hline. change (s_kw_def ++ gap ++ name ++ 40 :: ptext) with (100 :: ([101; 102] ++ gap ++ name ++ 40 :: ptext)).
     rewrite (trim_start_ws indent _ 100 Hind eq_refl).
-    change (100 :: [101; 102; 32] ++ name ++ 40 :: ptext) with ((s_def ++ name) ++ 40 :: ptext).
-    rewrite <- app_assoc. rewrite (app_assoc s_def name). rewrite trim_end_keep by reflexivity. now rewrite <- app_assoc. }
-  cbn [find_def_up]. rewrite Htrim. rewrite tprefix_app_self. cbn [orb].
-  (* not an async def; the name *)
-  assert (Ha : strip_prefix s_async_def (s_def ++ name ++ 40 :: trim_end ptext) = None) by reflexivity.
-  rewrite Ha, strip_prefix_app.
+    change (100 :: [101; 102] ++ gap ++ name ++ 40 :: ptext) with (s_kw_def ++ gap ++ name ++ 40 :: ptext).
+    replace (s_kw_def ++ gap ++ name ++ 40 :: ptext) with ((s_kw_def ++ gap ++ name) ++ 40 :: ptext) by (now rewrite <- !app_assoc).
+    rewrite trim_end_keep by reflexivity. now rewrite <- !app_assoc. }
+  (* what stands behind the keyword *)
+  assert (Hkw : after_def_keyword (s_kw_def ++ gap ++ name ++ 40 :: trim_end ptext) = Some (name ++ 40 :: trim_end ptext)).
+  { unfold after_def_keyword.
+    assert (Ha : after_kw s_kw_async (s_kw_def ++ gap ++ name ++ 40 :: trim_end ptext) = None) by reflexivity.
+    rewrite Ha. unfold after_kw. rewrite strip_prefix_app.
+    destruct gap as [|g0 gap']; [contradiction|]. cbn [app].
+    cbn [forallb] in Hgap. apply andb_prop in Hgap as [Hg0 Hg']. rewrite Hg0. f_equal.
+    change (g0 :: gap' ++ name ++ 40 :: trim_end ptext) with ((g0 :: gap') ++ n0 :: (name' ++ 40 :: trim_end ptext)).
+    apply trim_start_ws; [cbn [forallb]; now rewrite Hg0, Hg'|now rewrite Hn0]. }
+  cbn [find_def_up]. rewrite Htrim, Hkw. cbv beta iota. rewrite ?Hkw. cbv beta iota.
   rewrite take_ident_app by (try exact Hid; reflexivity).
-  destruct name as [|n0 name']; [contradiction|]. set (name := n0 :: name') in *.
   rewrite Htest. cbn [orb negb].
   replace (len above + 1 - 1) with (len above) by lia.
   replace (N.to_nat (len above)) with (length above) by (unfold len; lia).
@@ -400,7 +412,8 @@ Proof.
   assert (Hscan : scan_lines [line] (mk_pscan 0 false false) = mk_pscan 1 true false).
   { cbn [scan_lines]. rewrite Hline, !scan_line_app.
     rewrite (scan_line_no_parens true _ indent Hnpi).
-    rewrite (scan_line_no_parens true _ s_def eq_refl).
+    rewrite (scan_line_no_parens true _ s_kw_def eq_refl).
+    rewrite (scan_line_no_parens true _ gap Hnpg).
     rewrite (scan_line_no_parens true _ name).
     - change (40 :: ptext) with ([40] ++ ptext). rewrite scan_line_app.
       rewrite (scan_line_no_parens true _ ptext Hnpp). reflexivity.
